@@ -12,7 +12,7 @@ for d in /verif/mutants/*${pat}*.diff; do
   name=$(basename "$d" .diff); prop=${name%%-*}
   if ! git apply "$d" 2>/dev/null; then echo -e "$name\tAPPLY-FAILED" | tee -a "$OUT"; continue; fi
   if ! cargo build -q -p rarena-allocator --features memmap --offline 2>/dev/null; then echo -e "$name\tDOES-NOT-COMPILE" | tee -a "$OUT"; git checkout -- .; continue; fi
-  t=$(cargo test --workspace --no-fail-fast --offline 2>&1 | grep -E "^test result" | awk '{p+=$4; f+=$6} END {print p"/"f}')
+  t=$(timeout 180 cargo test --workspace --no-fail-fast --offline 2>&1 | grep -E "^test result" | awk '{p+=$4; f+=$6} END {print p"/"f}')
   start=$(date +%s)
   out=$(cd /verif && RV_WATCHDOG_S=240 timeout 600 ./run "$prop" quick 2>&1); code=$?
   end=$(date +%s)
